@@ -817,7 +817,7 @@ func (multi *MultiEpoch) processSlotTransactions(
 			block, err := multi.GetBlock(ctx, &old_faithful_grpc.BlockRequest{Slot: slot})
 			if err != nil {
 				if status.Code(err) == codes.NotFound {
-					return nil
+					continue // skipped slot (or epoch not available): go on with the next slot, as StreamBlocks does
 				}
 				return err
 			}
